@@ -647,9 +647,9 @@ fn main() {
     ];
     setup.extend(tcp_listener(tcp_good, "good"));
     setup.extend(tcp_listener(tcp_dead, "dead"));
-    // the accept gate closes at `10 + 2 * max_connections` slab entries, listeners included: the four
-    // extra listeners only exist when max_connections leaves room for them
-    let many_listeners = maxc >= 3;
+    // 8 listeners + 4 system entries: more entries that are not sessions than the 10 the accept gate
+    // reserves for them (with max_connections = 1 this used to close the gate for good on an idle worker)
+    let many_listeners = true;
     if many_listeners {
         setup.push(RequestType::AddHttpsListener(lbs2.to_tls(None).unwrap()));
         setup.push(RequestType::ActivateListener(ActivateListener { address: fas2.clone(), proxy: ListenerType::Https.into(), from_scm: false }));
